@@ -976,7 +976,7 @@ def modularity_louvain_dir(W, gamma=1, hierarchy=False, seed=None):
     ci = []
     ci.append(np.arange(n) + 1)  # hierarchical module assignments
     q = []
-    q.append(-1)  # hierarchical modularity index
+    q.append(-np.inf)  # sentinel below every modularity value (Q can be < -1 for mixed-sign weights or gamma > 1)
     n0 = n
 
     while True:
@@ -1109,7 +1109,7 @@ def modularity_louvain_und(W, gamma=1, hierarchy=False, seed=None):
     ci = []
     ci.append(np.arange(n) + 1)  # hierarchical module assignments
     q = []
-    q.append(-1)  # hierarchical modularity values
+    q.append(-np.inf)  # sentinel below every modularity value (Q can be < -1 for mixed-sign weights or gamma > 1)
     n0 = n
 
     #knm = np.zeros((n,n))
